@@ -100,23 +100,26 @@ def timed_check(solver, seconds):
     """solver.check() with a hard wall-clock limit; returns 'sat' | 'unsat' | 'unknown'."""
     import threading
     done = threading.Event()
-    ctx = solver.ctx   # NOT the solver: its last reference must never be dropped in the timer thread
+    ctx = solver.ctx   # NOT the solver: its last reference must never be dropped in the watcher thread
                        # (z3 reference counting is not thread-safe; doing so crashed libz3)
 
-    def fire():
-        # a timer that fires after check() returned would cancel the NEXT z3 call (`push canceled`)
-        if not done.is_set():
+    def watcher():
+        if done.wait(max(0.05, seconds)):
+            return
+        # keep interrupting until check() has returned: a single interrupt that arrives before the
+        # solver registered its cancel handler is lost and the query would run unbounded
+        while not done.is_set():
             ctx.interrupt()
-    timer = threading.Timer(max(0.05, seconds), fire)
-    timer.daemon = True
-    timer.start()
+            if done.wait(0.25):
+                return
+    th = threading.Thread(target=watcher, daemon=True)
+    th.start()
     try:
         r = str(solver.check())
     except z3.Z3Exception:
         r = "unknown"
     finally:
         done.set()
-        timer.cancel()
     return r
 
 
